@@ -94,6 +94,11 @@ def run(an: Analysis, rep):
     rep.run(line_fold.fold_rule, an, rep)
     rep.run(line_fold.raw_tables_rule, an, rep)
     rep.run(line_fold.raw_lnotab_rule, an, rep)
+    from . import c02 as _c02d
+    from .common import SharedRules as _SR10d
+    rep.run(_c02d.r025, an, _SR10d(rep, "R10.D2", "the line of an instruction is looked up under its first code unit and exactly its later code units are taken out of the decoded mapping (shared with C02's R02.5)"))
+    rep.run(_c02d.r02f, an, _SR10d(rep, "R10.D", "the decoder's instruction function folded over witness code units (shared with C02's R02.F): it takes the line of every code unit of an instruction out of "
+                                                 "the decoded mapping (two prefixes: three units), so nothing is left over that the trailing-entry check would refuse"))
     from .common import SharedRules, purity, truthiness_rule
     from . import c01
     rep.run(purity, an, rep, "R10.P", ["from_code", "to_code"])
